@@ -14,13 +14,18 @@ ASSUME = [
 ]
 
 
-def plan_like(ctx, prop, runs, extra_cases=None, soups=0):
+def plan_like(ctx, prop, runs, extra_cases=None, soups=0, sims=None):
     ctx.build_harness()
     jobs = []
     for name, cfg, ov in runs:
         def job(name=name, cfg=cfg, ov=ov):
             return ctx.tlc("PlanCheck", cfg, name=name, overrides=ov, workers=8, timeout=7000)["out"]
         jobs.append(job)
+    for name, cfg, ov, num, depth in (sims or []):
+        def sjob(name=name, cfg=cfg, ov=ov, num=num, depth=depth):
+            return ctx.tlc("PlanCheck", cfg, name=name, overrides=ov, workers=8, simulate=num, depth=depth, timeout=7000,
+                           must_finish=False)["out"]
+        jobs.append(sjob)
     outs = ctx.parallel(jobs, width=2)
     outs += extra_cases or []
     ctx.harness("plan-replay", "--property", prop, "--cases", ",".join(outs), "--seed", ctx.seed, "--soups", soups,
@@ -37,9 +42,10 @@ def plan_like(ctx, prop, runs, extra_cases=None, soups=0):
 
 def run_c02(ctx):
     thorough = ctx.tier == "thorough"
-    runs = [("plan_seq", "plan_seq", {"MaxOps": 4 if thorough else 3, "DbRows": 2})]
+    runs = [("plan_seq", "plan_seq", {"MaxOps": 4 if thorough else 3, "DbRows": 2, "CoreFrom": 3 if thorough else 2})]
     if thorough:
         runs.append(("plan_seq_rows3", "plan_seq", {"MaxOps": 2, "DbRows": 3}))
+    # random longer sequences over the full menu
     tr = plan_like(ctx, "C02", runs)
     return {"exhaustive": True, "assumptions": ASSUME, "coverage": {
         "rule": "every sequence of up to MaxOps operators from a menu of 22 operator instances (where, project incl. renaming "
